@@ -162,6 +162,9 @@ def repo():
 
 #: is the simulated console a terminal?  (set per case by an engine; code that asks isatty() sees this)
 SINK_TTY = False
+#: simulated seconds per step-clock event while a count runs under the tracer (None: the real clock is left alone).
+#: The package reads no clock; a tree that starts to (progress throttling, time-outs, time-stamped caches) reads this one.
+CLOCK_RATE = None
 #: is the simulated console closed?  (fault injection: every write/flush fails like a closed file)
 SINK_CLOSED = False
 
